@@ -48,6 +48,7 @@ K_ENDCMD = "verbatim-text:endverbatim-command-in-body-ends-environment"
 K_MATH_CHARSUB = "math-source:charsub-applied-in-math-mode"
 K_HTML_AMP = "html-payload:ampersand-entity-decoded"
 K_TEXT_DOLLAR = "math-source:dollar-math-inside-text-box-ends-outer-formula"
+K_EMPTY_MATH = "math-source:empty-math-in-box-read-as-display-math"
 
 
 # ==========================================================================
@@ -766,9 +767,19 @@ def _math_case(draw, placements, max_items):
         f = g.seq(depth, _base_ctx(list(macros), arrays=PLACEMENTS[place][2]), 5)
         pad = g.pick(["", "", " "])
         items.append({"place": place, "formula": pad + f + pad, "depth": depth})
-    return {"macros": macros, "items": items, "gen_features": sorted(g.feats),
+    case = {"macros": macros, "items": items, "gen_features": sorted(g.feats),
             "excluded_ligatures": g.excluded_lig, "excluded_entities": g.excluded_amp,
             "excluded_text_math": g.excluded_textmath}
+    if K_EMPTY_MATH in KNOWN and _has_empty_math(case):
+        # listed finding: $#k$ inside a box with an empty argument; the empty defaults get a letter
+        for m in macros:
+            if m["default"] == "":
+                m["default"] = "o"
+        case["excluded_empty_math"] = 1
+        if _has_empty_math(case):
+            case["excluded_empty_math"] = 2       # still there (an explicit empty argument): the items are dropped
+            case["items"] = [{"place": "dollar", "formula": "x", "depth": 1}]
+    return case
 
 
 @st.composite
@@ -888,6 +899,16 @@ def _has_text_dollar(case):
     return False
 
 
+def _has_empty_math(case):
+    """an empty formula $$ inside a box (after macro expansion: $#1$ with an empty argument) somewhere in the case"""
+    table = mathtok.macro_table(case["macros"])
+    for it in case["items"]:
+        toks = mathtok.expand(mathtok.tokens(it["formula"]), table)
+        if any(a == "$" and b == "$" for a, b in zip(toks, toks[1:])):
+            return True
+    return False
+
+
 def _mismatch_key(prefix, expected, observed, diff):
     i = diff["index"]
     e = expected[i] if i < len(expected) else None
@@ -918,6 +939,8 @@ def _case_features(case):
         feats.append("excluded-known:entity-like-cell-dropped")
     if case.get("excluded_text_math"):
         feats.append("excluded-known:dollar-math-in-text-dropped")
+    if case.get("excluded_empty_math"):
+        feats.append("excluded-known:empty-math-in-box-avoided")
     nontrivial = depth >= 2 or "macro-call" in feats
     return feats, nontrivial
 
@@ -936,6 +959,10 @@ def _root_cause(case, result):
             and result.key != K_MATH_CHARSUB and _has_text_dollar(case):
         result.detail = dict(result.detail or {}, first_symptom=result.key)
         result.key = K_TEXT_DOLLAR
+    elif not result.ok and not result.excluded and not result.key.startswith("harness:") \
+            and result.key != K_MATH_CHARSUB and _has_empty_math(case):
+        result.detail = dict(result.detail or {}, first_symptom=result.key)
+        result.key = K_EMPTY_MATH
     return result
 
 
